@@ -361,4 +361,72 @@ Definition tridiag (computeU : bool) (Am : mat) : mat * option mat :=
   let n := length Am in
   iter_steps (tridiag_step n) 0 (n - 2) (Am, if computeU then Some (ident n) else None).
 
+(* ================================================================== *)
+(* Round 2: the three routines below were changed in /repo by `fix:` commits
+   (b6e746d gramSchmidt, 2c4ff32 householderBidiagonalization, 0e89154
+   householderTridiagonalization).  The definitions above model the code BEFORE
+   those commits and are kept unchanged (other properties import them); the
+   definitions with suffix 2 model /repo's HEAD and are the ones tied by Corr.v. *)
+
+(* gramSchmidt at HEAD: in iteration i, after r_ii, the entries R[k,i], k = i+1..n-1,
+   are set to 0.  Every entry of an n x m buffer is therefore written: rows i < m are
+   (0,..,0, r_ii, r_i,i+1, ..), rows i >= m are zero on their first m columns. *)
+Definition gram_schmidt_in2 (R0 : mat) (Am : mat) : mat * mat :=
+  let n := length Am in let m := ncols Am in
+  let st := gs_cols m (transpose_n m Am) in
+  let Q := transpose_n n (map (fun t => fst (fst t)) st) in
+  let Rrows := map2 (fun i t => zeros i ++ snd (fst t) :: snd t) (seq 0 m) st in
+  (Q, Rrows ++ map (fun row => zeros (Nat.min m (length row)) ++ skipn m row) (skipn m R0)).
+Definition gram_schmidt2 (Am : mat) : mat * mat :=
+  gram_schmidt_in2 (repeat (zeros (ncols Am)) (length Am)) Am.
+
+(* householderBidiagonalization at HEAD: V <- V (I - beta2 nu2' nu2'^T)  (ApplyRight) *)
+Definition bidiag2_step (m n j : nat) (st : mat * option mat * option mat) : mat * option mat * option mat :=
+  let '(Am, U, V) := st in
+  let x := skipn j (col j Am) in
+  let '(beta, nu) := house x in
+  let A1 := put_block Am j j (house_left (block Am j m j n) beta nu) in
+  let U1 := match U with None => None | Some Um => Some (house_right Um beta (zeros j ++ nu)) end in
+  if Nat.ltb (j + 2) n then
+    let xr := skipn (S j) (nth j A1 []) in
+    let '(beta2, nu2) := house xr in
+    let A2 := put_block A1 j (S j) (house_right (block A1 j m (S j) n) beta2 nu2) in
+    let V1 := match V with None => None | Some Vm => Some (house_right Vm beta2 (zeros (S j) ++ nu2)) end in
+    (A2, U1, V1)
+  else (A1, U1, V).
+
+Definition bidiag2 (computeU computeV : bool) (Am : mat) : mat * option mat * option mat :=
+  let m := length Am in let n := ncols Am in
+  iter_steps (bidiag2_step m n) 0 n
+    (Am, (if computeU then Some (ident m) else None), (if computeV then Some (ident n) else None)).
+
+(* householderTridiagonalization at HEAD: A(k+1,k), A(k,k+1) are overwritten by
+   +|A[k+1..n,k]| only when beta <> 0 (a reflection was applied); with beta = 0 they
+   keep their value and sign. *)
+Definition tridiag2_step (n k : nat) (AU : mat * option mat) : mat * option mat :=
+  let '(Am, U) := AU in
+  let x := skipn (S k) (col k Am) in
+  let '(beta, nu) := house x in
+  let a22 := block Am (S k) n (S k) n in
+  let p := map (fun y => mul N y beta) (mdotv a22 nu) in
+  let t := div N (mul N (dotl p nu zero') beta) (add N one' one') in
+  let w := map2 (fun pi nui => sub N pi (mul N nui t)) p nu in
+  let s := vnorm x in
+  let refl := negb (eqb N beta zero') in        (* beta.GetFloat64() != 0.0 *)
+  let a22' := map2 (fun nw row =>
+                 map2 (fun nw' a => sub N (sub N a (mul N (fst nw) (snd nw'))) (mul N (fst nw') (snd nw)))
+                      (combine nu w) row) (combine nu w) a22 in
+  let A1 := put_block Am (S k) (S k) a22' in
+  let A2 := map2 (fun i row =>
+              if Nat.eqb i k then
+                firstn (S k) row ++ (if refl then s else nth (S k) row zero') :: zeros (n - k - 2)
+              else if Nat.eqb i (S k) then (if refl then set_nth row k s else row)
+              else if Nat.ltb (S k) i then set_nth row k zero' else row) (seq 0 n) A1 in
+  (A2, match U with None => None
+       | Some Um => Some (put_block Um 0 (S k) (house_right (block Um 0 n (S k) n) beta nu)) end).
+
+Definition tridiag2 (computeU : bool) (Am : mat) : mat * option mat :=
+  let n := length Am in
+  iter_steps (tridiag2_step n) 0 (n - 2) (Am, if computeU then Some (ident n) else None).
+
 End Model.
